@@ -36,6 +36,7 @@ fn catch<T>(f: impl FnOnce() -> T + panic::UnwindSafe) -> Result<T, String> {
 }
 
 mod ops;
+mod conformance;
 
 fn main() {
     panic::set_hook(Box::new(|_| {}));
